@@ -5,7 +5,8 @@
    index and slice expression), the decoder model Model/Pdu.v ([read_pdu]).
    "Returns normally" is [<> Panic] / [= Ok _]; no statement below carries a
    size bound or a well-formedness hypothesis on the PDU content. *)
-From V Require Import Model.Accessors Gen.AccessorTables Spec.CombinerSpec
+(* Model.AccessorsRun: the glue the generated cases evaluate, built with this file *)
+From V Require Import Model.Accessors Model.AccessorsRun Gen.AccessorTables Spec.CombinerSpec
   Proofs.CombinerProofs Proofs.AccessorsProofs Proofs.AccessorTables.
 Open Scope N_scope.
 
